@@ -70,7 +70,7 @@ def gen_ops(rng, label, n):
     ks, vs = KEYS[kind], values(kind, rng)
     ops = []
     for _ in range(n):
-        k = rng.choice(['set', 'set', 'set', 'del', 'update', 'pop', 'clear', 'setdefault', 'mutate', 'cached-dump', 'rewrite', 'readmutate'])
+        k = rng.choice(['set', 'set', 'set', 'del', 'update', 'pop', 'clear', 'setdefault', 'mutate', 'cached-dump', 'rewrite', 'readmutate', 'popd', 'popd'])
         if k == 'set':
             ops.append(('set', rng.choice(ks), rng.choice(vs)))
         elif k in ('del', 'pop'):
@@ -88,11 +88,18 @@ def gen_ops(rng, label, n):
             ops.append(('cached-dump', [(rng.choice(ks), rng.choice(vs)) for _ in range(rng.randint(1, 3))]))
         elif k == 'readmutate':
             ops.append(('readmutate',))
+        elif k == 'popd':
+            # pop with a default - in particular a default that IS the stored value (None, 0, '', False)
+            ops.append(('popd', rng.choice(ks), rng.choice([None, 0, '', False, 'dflt'])))
         elif k == 'rewrite':
             # the same key rewritten at once with a value of the same size: what a stale cache would miss
             key = rng.choice(ks)
             ops.append(('rewrite', key, rng.randint(0, 4), rng.randint(5, 9)))
     return ops
+
+
+def rng_small(i):
+    return i % 2 == 0
 
 
 def state_of(a):
@@ -147,6 +154,16 @@ def run_history(label, ops, scratch, proc_every):
                     c[a] = fresh_copy(b)
                     ref[a] = fresh_copy(b)
                 c.dump()
+            elif k == 'popd':
+                key, dflt = op[1], op[2]
+                if key in ref and rng_small(i) and kind_of(label) != 'sql' and 'json' not in label:
+                    h[key] = dflt            # make the stored value the very object passed as default
+                    ref[key] = dflt
+                want = ref.pop(key, dflt)
+                got = h.pop(key, dflt)
+                if not same_val(got, want):
+                    problems.append({'step': i, 'op': op, 'what': 'pop(%r, %r) returned %r, a dict returns %r' % (key, dflt, got, want)})
+                    break
             elif k == 'readmutate':
                 # what a read hands out is the caller's own copy: changing it changes nothing that is stored
                 for key, val in list(ref.items()):
@@ -491,7 +508,7 @@ def replay(p, path):
             ops = []
             for o in p['ops']:
                 o = list(o)
-                if o[0] in ('set', 'del', 'pop', 'setdefault', 'mutate', 'rewrite'):
+                if o[0] in ('set', 'del', 'pop', 'setdefault', 'mutate', 'rewrite', 'popd'):
                     o[1] = key(o[1])
                 elif o[0] in ('update', 'cached-dump'):
                     o[1] = [(key(a), b) for a, b in o[1]]
